@@ -129,9 +129,9 @@ for _t, _tn in ((0, 'moving'), (1, 'unique'), (2, 'xvalid')):
     K('C10.f.%s' % _tn, property='C10', engine='symex', harness='C10/estimate.cpp', entries=['k_pair_t%d_a%d_f%d' % (_t, _a, _f) for _a in range(7) for _f in range(3)], tus=_EST_TUS,
       bounds={'quick': '%s neighbourhood; two consecutive targets; memo before the first: empty or 2 arbitrary ranks, arbitrary memorised target and flag; each target: the memorised target again / another target '
                        'with hasChanged true / false, getNeigh returns 0 or 2 arbitrary ranks (the memorised set in another order, or a different set); first target: all stages succeed / _prepar fails / '
-                       '_rhsCalcul fails; second target: arbitrary failures; continuous flag on / off; rank values, target ranks in [0,1000] and the other flags symbolic'
+                       '_rhsCalcul fails; second target: arbitrary failures; continuous flag off (on only with the neighbours of the second target unchanged); rank values, target ranks in [0,1000] and the other flags symbolic'
                        % {'moving': 'moving', 'unique': 'unique', 'xvalid': 'unique, cross-validation option,'}[_tn]},
-      timeout_ms={'quick': 60000, 'thorough': 600000}, validate={'quick': 4, 'thorough': 20},
+      timeout_ms={'quick': 60000, 'thorough': 600000}, validate={'quick': 2, 'thorough': 10},
       what=_EST_WHAT,
       out='what the stages compute (C01); image neighbourhood (no selection in estimate); _flagNeighOnly; collocated option; a failing right-hand side stage (C10.f.rhs); lists of other lengths',
       assumptions=_EST_ASSUME, stubs=_EST_STUBS)
@@ -141,3 +141,50 @@ K('C10.f.rhs', property='C10', engine='symex', harness='C10/estimate.cpp', entri
   what='KrigingSystem::estimate: when _rhsCalcul reports a failure (undefined drift value at the target: the right-hand side keeps rows of the previous target) the read-out stage receives a '
        'non-zero status (results of the target undefined) instead of computing from the partly updated right-hand side',
   out='as C10.f', assumptions=_EST_ASSUME, stubs=_EST_STUBS)
+
+# C10.g  ball tree: the metric of a tree is selected by the arguments of its own btree_init call (file-static st_distance_function)
+def _g_fmax(eng, st, args, where):
+    import z3
+    from fractions import Fraction
+    a, b = args
+    if isinstance(a, (int, Fraction)) and isinstance(b, (int, Fraction)):
+        return max(a, b)
+    za = a if isinstance(a, z3.ExprRef) else z3.RealVal(a)
+    zb = b if isinstance(b, z3.ExprRef) else z3.RealVal(b)
+    return z3.If(za > zb, za, zb)
+
+
+def _g_log2_exact(x):
+    import math
+    from fractions import Fraction
+    if x <= 0:
+        return None
+    return Fraction(math.log2(float(x)))
+
+
+def _g_pow_exact(x, y):
+    from fractions import Fraction
+    if Fraction(y).denominator == 1 and (x != 0 or y >= 0):
+        return Fraction(x) ** int(y)
+    return None
+
+
+_BD_SYMEX = {'overrides': {'fmax': _g_fmax}, 'libm_exact': {'log2': _g_log2_exact, 'pow': _g_pow_exact}}
+_BD_STUBS = ['euclidean_distance: sqrt(sum (x1-x2)^2) computed exactly on the data of the kernel (the library one goes through SpacePoint / ASpace and the default space)',
+             'fmax: exact maximum of two reals; log2 / pow: exact values on the concrete integer arguments of the node-count arithmetic of btree_init',
+             'caller-supplied metric: Chebyshev distance (harness function passed as dist_function)',
+             'heap row built by the harness as nheap_init does, with the finite value 1000 in place of INFINITY']
+_BD_ASSUME = ['concrete data: two points (0,0), (6,8), leaf_size 1, query point (9,12): Euclidean, Manhattan and Chebyshev distances all differ on it',
+              'default_distance_function restricted to its documented values 1 (Euclidean) and 2 (Manhattan)']
+K('C10.g', property='C10', engine='symex', harness='C10/balldist.cpp', entries=['k_second'], tus=['src/Tree/ball_algorithm.cpp', 'src/Tree/neighbors_heap.cpp'], symex=_BD_SYMEX,
+  bounds={'quick': 'two consecutive btree_init calls, each with Euclidean default / Manhattan default / caller function (9 orders), on the fixed data of 2 points in 2-D; no symbolic input'},
+  timeout_ms={'quick': 60000, 'thorough': 600000}, validate={'quick': 2, 'thorough': 2}, validate_doubles='int',
+  what='define_dist_function, btree_init (+ init_node, recursive_build), min_dist, nheap_load / query_depth_first: whatever metric the previous btree_init call selected, the tree built by the second call '
+       'has the node radius, the lower bound min_dist and the nearest-neighbour distances of the metric its own arguments select (in particular the Euclidean default after a Manhattan or custom tree)',
+  out='querying an older tree after a newer one was built with another metric (C10.g.first); default_distance_function outside {1,2}; the library euclidean_distance itself; Ball / KNN wrappers',
+  assumptions=_BD_ASSUME, stubs=_BD_STUBS)
+K('C10.g.first', property='C10', engine='symex', harness='C10/balldist.cpp', entries=['k_first'], tus=['src/Tree/ball_algorithm.cpp', 'src/Tree/neighbors_heap.cpp'], symex=_BD_SYMEX,
+  bounds={'quick': 'as C10.g; the FIRST tree is queried after the second one was built'},
+  timeout_ms={'quick': 60000, 'thorough': 600000}, validate={'quick': 2, 'thorough': 2}, validate_doubles='int',
+  what='same functions: a tree queried after another tree was built with a different metric still answers (min_dist, nearest-neighbour distances) with the metric of its own btree_init call',
+  out='as C10.g', assumptions=_BD_ASSUME, stubs=_BD_STUBS)
